@@ -275,7 +275,11 @@ def gen_circuit_spec(rng, cfg):
         elif k == "g2":
             spec.append({"g": rng.choice(["CX", "CZ"]), "at": rng.choice(adjq)})
         elif k == "cgate_named":
-            spec.append({"g": rng.choice(["CY", "CH"]), "at": rng.choice(adjq)})
+            g, at = rng.choice(["CY", "CH"]), rng.choice(adjq)
+            if rng.random() < 0.5:      # a sign on the controlled gate is a phase on its control
+                spec += [{"g": "H", "at": at}, {"g": g, "at": at}, {"g": "H", "at": at}]
+            else:
+                spec.append({"g": g, "at": at})
         elif k == "crz":
             at, phase = rng.choice(adjq), rng.choice(PHASES)
             if rng.random() < 0.6:
